@@ -1,4 +1,273 @@
-(** C18 — storage cleaning removes only expired material and nothing else (placeholder, filled below). *)
-From CM Require Import Lib.Str Gen.Consts Clean.Model.
-Theorem C18_placeholder : True. Proof. exact I. Qed.
-Print Assumptions C18_placeholder.
+(** C18 — Storage cleaning removes only expired material and nothing else.
+
+    [clean e o now s0] is the model of certmagic.CleanStorage (Clean/Model.v): [e] = fault
+    plan, cancellation point and back-end flavour, [o] = options, [now] = clock, [s0] = storage
+    before. All statements hold for every storage content (any key tree, any values), every
+    combination of options, every grace period and interval, every fault plan and cancellation
+    point. [file s k] is the value of the terminal key k. *)
+From CM Require Import Lib.Str Lib.CleanSyntax Gen.Consts Clean.Model Clean.Proofs.
+From Coq Require Import String Ascii.
+Open Scope Z_scope.
+
+(** ** What may be deleted, spelled out: [justified o now s0 k] (the boolean used by the run-time
+    monitor [spec_ok]) holds exactly if
+    - staples are cleaned and k is (or lies under) a terminal key directly in ocsp/ whose value
+      is unparseable or past NextUpdate, or
+    - certificates are cleaned and k is (or lies under) X.crt, X.key or X.json for a file X.crt
+      directly in a site folder certificates/<issuer>/<site>/ that parses as a certificate with
+      now - expiresAt >= grace. *)
+Theorem C18_justified_means_expired : forall o now s0 k,
+  justified o now s0 k = true <-> may_delete o now s0 k.
+Proof. exact justified_iff. Qed.
+Print Assumptions C18_justified_means_expired.
+
+(** ** deletes_only_expired / everything_else_unchanged / last_clean_only_write in one statement:
+    afterwards every terminal key has its old value, or is gone and was justified, or is
+    last_clean.json holding the record written by this run *)
+Theorem C18_clean_post : forall e o now s0 k,
+  let s' := sto (snd (clean e o now s0)) in
+  (file s' k = file s0 k \/ (file s' k = None /\ justified o now s0 k = true)) \/
+  (k = spec_last_clean /\ lookup s' k = Some (written now o)).
+Proof. intros e o now s0 k. exact (clean_post e o now s0 k). Qed.
+Print Assumptions C18_clean_post.
+
+Theorem C18_deletes_only_expired : forall e o now s0 k x,
+  file s0 k = Some x -> file (sto (snd (clean e o now s0))) k = None ->
+  may_delete o now s0 k.
+Proof.
+  intros e o now s0 k x H0 H1. apply justified_iff.
+  destruct (clean_post e o now s0 k) as [[E|[_ J]]|[_ E]]; [congruence | exact J |].
+  unfold file in H1. rewrite E in H1. discriminate.
+Qed.
+Print Assumptions C18_deletes_only_expired.
+
+Theorem C18_everything_else_unchanged : forall e o now s0 k,
+  ~ may_delete o now s0 k -> k <> spec_last_clean ->
+  file (sto (snd (clean e o now s0))) k = file s0 k.
+Proof.
+  intros e o now s0 k Hn Hk.
+  destruct (clean_post e o now s0 k) as [[E|[_ J]]|[E _]]; [exact E | | contradiction].
+  exfalso. apply Hn. apply justified_iff. exact J.
+Qed.
+Print Assumptions C18_everything_else_unchanged.
+
+Theorem C18_last_clean_only_write : forall e o now s0 k x,
+  file (sto (snd (clean e o now s0))) k = Some x -> file (sto (snd (clean e o now s0))) k <> file s0 k ->
+  k = spec_last_clean /\ lookup (sto (snd (clean e o now s0))) k = Some (written now o).
+Proof.
+  intros e o now s0 k x H1 Hne.
+  destruct (clean_post e o now s0 k) as [[E|[E _]]|E]; [contradiction | congruence | exact E].
+Qed.
+Print Assumptions C18_last_clean_only_write.
+
+(** ** never removes or alters ... *)
+(** ... the assets of unexpired certificates (grace >= 0: not yet expired implies not expired for
+    the grace period); also when X.crt is missing or unparseable *)
+Theorem C18_live_assets_untouched : forall e o now s0 base suf,
+  site_assetb (base ++ spec_ext_crt) = true -> In suf asset_exts ->
+  match file s0 (base ++ spec_ext_crt) with
+  | Some (_, c) => spec_expired now (grace o) c
+  | None => false
+  end = false ->
+  file (sto (snd (clean e o now s0))) (base ++ suf) = file s0 (base ++ suf).
+Proof. exact live_assets_untouched. Qed.
+Print Assumptions C18_live_assets_untouched.
+
+Theorem C18_unexpired_never_removed : forall e o now s0 base suf v c na,
+  0 <= grace o -> site_assetb (base ++ spec_ext_crt) = true -> In suf asset_exts ->
+  file s0 (base ++ spec_ext_crt) = Some (v, c) -> as_cert c = Some na -> now < expires_at na ->
+  file (sto (snd (clean e o now s0))) (base ++ suf) = file s0 (base ++ suf).
+Proof.
+  intros e o now s0 base suf v c na Hg Hb Hs Hf Hc Hlive.
+  apply live_assets_untouched; [exact Hb | exact Hs|]. rewrite Hf. unfold spec_expired. rewrite Hc.
+  apply Z.leb_gt. lia.
+Qed.
+Print Assumptions C18_unexpired_never_removed.
+
+(** ... fresh staples *)
+Theorem C18_fresh_staple_untouched : forall e o now s0 k v c,
+  child spec_ocsp k -> file s0 k = Some (v, c) -> spec_stale now c = false ->
+  file (sto (snd (clean e o now s0))) k = file s0 k.
+Proof. exact fresh_staple_untouched. Qed.
+Print Assumptions C18_fresh_staple_untouched.
+
+(** ... account data, locks or any other key outside ocsp/ and certificates/ *)
+Theorem C18_foreign_keys_untouched : forall e o now s0 k,
+  has_prefix ocsp_pfx k = false -> has_prefix certs_pfx k = false -> k <> spec_last_clean ->
+  file (sto (snd (clean e o now s0))) k = file s0 k.
+Proof. exact foreign_keys_untouched. Qed.
+Print Assumptions C18_foreign_keys_untouched.
+
+(** ** does nothing if a cleaning was recorded more recently than the interval *)
+Theorem C18_skips_when_recent : forall e o now s0, recent o now s0 = true ->
+  sto (snd (clean e o now s0)) = s0 /\
+  has_kind does_work (rev (lg (snd (clean e o now s0)))) = false.
+Proof. exact skip_when_recent. Qed.
+Print Assumptions C18_skips_when_recent.
+
+(** ** records when it ran *)
+Theorem C18_records_run : forall e o now s0, let log := rev (lg (snd (clean e o now s0))) in
+  fst (clean e o now s0) = RNil -> stored_ok log = true \/ has_kind does_work log = false.
+Proof. exact clean_records. Qed.
+Print Assumptions C18_records_run.
+
+Theorem C18_delete_then_record : forall e o now s0, let log := rev (lg (snd (clean e o now s0))) in
+  has_kind (fun k => match k with KDelete => true | _ => false end) log = true ->
+  has_kind (fun k => match k with KStore => true | _ => false end) log = true.
+Proof. exact clean_delete_then_record. Qed.
+Print Assumptions C18_delete_then_record.
+
+(** ** runs under a cluster-wide lock *)
+(** every storage call of a cleaning lies between taking and releasing the storage_clean lock;
+    on every path (skip, abort, faults) the lock that was taken is released last *)
+Theorem C18_runs_under_lock : forall e o now s0,
+  bracketedb (rev (lg (snd (clean e o now s0)))) = true.
+Proof. exact clean_bracketed. Qed.
+Print Assumptions C18_runs_under_lock.
+
+(** any number of cleaners, each running any number of cleanings, in any interleaving that a
+    mutual-exclusion Locker admits: every storage call is made by the current lock holder, the
+    lock is taken only when free, released only by its holder, and is free at the end *)
+Theorem C18_cleaners_never_overlap : forall tr,
+  (forall t, exists runs, proj t tr = thread_log runs) ->
+  locker_ok None tr = true -> under_lock None tr = true.
+Proof. exact cleaners_never_overlap. Qed.
+Print Assumptions C18_cleaners_never_overlap.
+
+(** consequently cleaners act one after the other; any sequence of cleanings (each with its own
+    options, clock, faults) only ever deletes keys justified for one of them on the initial storage *)
+Theorem C18_sequence_safe : forall runs s0 k, k <> spec_last_clean ->
+  file (clean_seq runs s0) k = file s0 k \/
+  (file (clean_seq runs s0) k = None /\
+   exists r, In r runs /\ justified (r_opts r) (r_now r) s0 k = true).
+Proof. exact clean_seq_post. Qed.
+Print Assumptions C18_sequence_safe.
+
+(** ** Examples: the hypotheses are satisfiable and the conclusions are not vacuous *)
+Fixpoint s2k (s : string) : str :=
+  match s with
+  | EmptyString => []
+  | String a r => N.of_nat (nat_of_ascii a) :: s2k r
+  end.
+Definition T : Z := 1790000000 * second.           (* "now" *)
+Definition day : Z := 86400 * second.
+Definition plain : cls := Cls None None None.
+Definition crt (na : Z) : cls := Cls (Some na) None None.
+Definition stp (nu : Z) : cls := Cls None (Some nu) None.
+Definition ex_store : store :=
+  [ (s2k "certificates/iss/live.example/live.example.crt", File 0 (crt (T + 30 * day)));
+    (s2k "certificates/iss/live.example/live.example.key", File 1 plain);
+    (s2k "certificates/iss/live.example/live.example.json", File 2 plain);
+    (s2k "certificates/iss/dead.example/dead.example.crt", File 3 (crt (T - 31 * day)));
+    (s2k "certificates/iss/dead.example/dead.example.key", File 4 plain);
+    (s2k "certificates/iss/dead.example/dead.example.json", File 2 plain);
+    (s2k "certificates/iss/grace.example/grace.example.crt", File 5 (crt (T - 29 * day)));
+    (s2k "certificates/iss/grace.example/grace.example.key", File 6 plain);
+    (s2k "certificates/iss/bad.example/bad.example.crt", File 7 plain);
+    (s2k "certificates/iss/bad.example/bad.example.key", File 8 plain);
+    (s2k "certificates/iss/stray.txt", File 9 plain);
+    (s2k "ocsp/a-fresh", File 10 (stp (T + day)));
+    (s2k "ocsp/a-stale", File 11 (stp (T - day)));
+    (s2k "ocsp/a-corrupt", File 12 plain);
+    (s2k "acme/ca/users/u/u.key", File 13 plain);
+    (s2k "locks/issue_cert_x.lock", File 14 plain);
+    (s2k "last_clean.json", File 15 (Cls None None (Some (T - 2 * day, s2k "other")))) ].
+Definition ex_env : env := Env [] None true.
+Definition ex_opts : opts := Opts (1 * day) true true (30 * day) (s2k "me").
+
+(** what a cleaning does to it: the long-expired certificate's three assets and the two bad
+    staples go, last_clean.json is rewritten, everything else stays.
+    NB the unparseable bad.example.crt makes deleteExpiredCerts return an error at that point
+    (sites are visited in sorted order: bad, dead, grace, live) -- so dead.example, which comes
+    later, is NOT cleaned in this run; with bad.example removed it is. *)
+Example ex_run_aborts_at_malformed :
+  map fst (sto (snd (clean ex_env ex_opts T ex_store))) =
+  map s2k [ "last_clean.json";
+            "certificates/iss/live.example/live.example.crt"; "certificates/iss/live.example/live.example.key";
+            "certificates/iss/live.example/live.example.json";
+            "certificates/iss/dead.example/dead.example.crt"; "certificates/iss/dead.example/dead.example.key";
+            "certificates/iss/dead.example/dead.example.json";
+            "certificates/iss/grace.example/grace.example.crt"; "certificates/iss/grace.example/grace.example.key";
+            "certificates/iss/bad.example/bad.example.crt"; "certificates/iss/bad.example/bad.example.key";
+            "certificates/iss/stray.txt"; "ocsp/a-fresh"; "acme/ca/users/u/u.key"; "locks/issue_cert_x.lock" ]%string.
+Proof. vm_compute. reflexivity. Qed.
+
+Definition ex_store2 : store :=
+  filter (fun en => negb (has_prefix (s2k "certificates/iss/bad.example") (fst en))) ex_store.
+Example ex_run_deletes_expired :
+  map fst (sto (snd (clean ex_env ex_opts T ex_store2))) =
+  map s2k [ "last_clean.json";
+            "certificates/iss/live.example/live.example.crt"; "certificates/iss/live.example/live.example.key";
+            "certificates/iss/live.example/live.example.json";
+            "certificates/iss/grace.example/grace.example.crt"; "certificates/iss/grace.example/grace.example.key";
+            "certificates/iss/stray.txt"; "ocsp/a-fresh"; "acme/ca/users/u/u.key"; "locks/issue_cert_x.lock" ]%string
+  /\ fst (clean ex_env ex_opts T ex_store2) = RNil
+  /\ lookup (sto (snd (clean ex_env ex_opts T ex_store2))) spec_last_clean = Some (written T ex_opts).
+Proof. vm_compute. repeat split; reflexivity. Qed.
+
+(** hypotheses of C18_deletes_only_expired / may_delete are met by the deleted keys *)
+Example ex_justified :
+  justified ex_opts T ex_store2 (s2k "certificates/iss/dead.example/dead.example.key") = true /\
+  justified ex_opts T ex_store2 (s2k "ocsp/a-corrupt") = true /\
+  justified ex_opts T ex_store2 (s2k "certificates/iss/grace.example/grace.example.key") = false /\
+  justified ex_opts T ex_store2 (s2k "certificates/iss/stray.txt") = false /\
+  justified ex_opts T ex_store2 (s2k "ocsp/a-fresh") = false.
+Proof. vm_compute. repeat split; reflexivity. Qed.
+
+(** hypotheses of C18_unexpired_never_removed / C18_live_assets_untouched *)
+Example ex_live_hyps :
+  let base := s2k "certificates/iss/live.example/live.example" in
+  site_assetb (base ++ spec_ext_crt) = true /\
+  file ex_store (base ++ spec_ext_crt) = Some (0, crt (T + 30 * day)) /\ T < expires_at (T + 30 * day) /\
+  0 <= grace ex_opts.
+Proof. repeat split; vm_compute; first [reflexivity | discriminate]. Qed.
+(** ... and of the "expired but within grace" and "unparseable" cases *)
+Example ex_grace_hyps :
+  match file ex_store (s2k "certificates/iss/grace.example/grace.example" ++ spec_ext_crt) with
+  | Some (_, c) => spec_expired T (grace ex_opts) c | None => false end = false /\
+  match file ex_store (s2k "certificates/iss/bad.example/bad.example" ++ spec_ext_crt) with
+  | Some (_, c) => spec_expired T (grace ex_opts) c | None => false end = false.
+Proof. vm_compute. split; reflexivity. Qed.
+
+Example ex_fresh_staple_hyps :
+  child spec_ocsp (s2k "ocsp/a-fresh") /\ spec_stale T (stp (T + day)) = false.
+Proof. split; [exists (s2k "a-fresh"); split; reflexivity | reflexivity]. Qed.
+
+Example ex_foreign_hyps :
+  has_prefix ocsp_pfx (s2k "acme/ca/users/u/u.key") = false /\
+  has_prefix certs_pfx (s2k "acme/ca/users/u/u.key") = false /\
+  has_prefix certs_pfx (s2k "locks/issue_cert_x.lock") = false /\
+  has_prefix certs_pfx (s2k "certificates.txt") = false.
+Proof. vm_compute. repeat split; reflexivity. Qed.
+
+(** hypothesis of C18_skips_when_recent: the same storage, cleaned 2 days ago, interval 3 days *)
+Example ex_recent : recent (Opts (3 * day) true true 0 []) T ex_store = true /\
+                    recent ex_opts T ex_store = false.
+Proof. vm_compute. split; reflexivity. Qed.
+
+(** hypotheses of C18_cleaners_never_overlap: two cleaners, the second gets the lock after the first *)
+Definition ex_trace : list tev :=
+  map (TEv 0) (rev (lg (snd (clean ex_env ex_opts T ex_store2)))) ++
+  map (TEv 1) (rev (lg (snd (clean ex_env ex_opts (T + 1) (sto (snd (clean ex_env ex_opts T ex_store2))))))).
+Example ex_trace_hyps :
+  locker_ok None ex_trace = true /\ under_lock None ex_trace = true /\
+  proj 0 ex_trace = thread_log [(Run ex_env ex_opts T, ex_store2)] /\ (List.length ex_trace > 20)%nat.
+Proof. vm_compute. repeat split; try reflexivity. repeat constructor. Qed.
+
+(** the second of them skips (recorded by the first) *)
+Example ex_second_skips :
+  has_kind does_work (proj 1 ex_trace) = false /\ has_kind mutates (proj 0 ex_trace) = true.
+Proof. vm_compute. split; reflexivity. Qed.
+
+(** ** Limits, stated: a NEGATIVE grace period makes the comparison
+    [time.Since(expiresAt) >= grace] true for certificates that are not expired yet; the
+    hypothesis [0 <= grace] of C18_unexpired_never_removed cannot be dropped. *)
+Theorem C18_negative_grace_refuted : exists e o now s0 k v c na,
+  grace o < 0 /\ file s0 k = Some (v, c) /\ as_cert c = Some na /\ now < expires_at na /\
+  file (sto (snd (clean e o now s0))) k = None.
+Proof.
+  exists ex_env, (Opts 0 false true (- (60 * day)) []), T, ex_store2,
+         (s2k "certificates/iss/live.example/live.example.crt"), 0, (crt (T + 30 * day)), (T + 30 * day).
+  vm_compute. repeat split; reflexivity.
+Qed.
+Print Assumptions C18_negative_grace_refuted.
